@@ -8,6 +8,7 @@ fn main() {
     println!("cargo:rustc-check-cfg=cfg(beta)");
     println!("cargo:rustc-check-cfg=cfg(nightly)");
     println!("cargo:rustc-check-cfg=cfg(dev)");
+    println!("cargo:rustc-check-cfg=cfg(yoanlcq_vek_verif)");
     match version_meta().unwrap().channel {
         Channel::Stable => {
             println!("cargo:rustc-cfg=stable");
